@@ -19,12 +19,12 @@ PROFILES = {
     "peer4m":   dict(N=4, L=3, cap=0, head=0, manual=1, pay=4, ctx=1, feat="PSHG"),
     "tiny2v":   dict(N=2, L=1, cap=1, head=0, manual=0, pay=5, ctx=2, feat="PSHGV"),
     "inj3m":    dict(N=3, L=4, cap=0, head=1, manual=1, pay=2, ctx=3, feat="PSHG", inj=(1, 2, 1, 3)),
-    "sparse5":  dict(N=5, L=2, cap=0, head=1, manual=0, pay=1, ctx=0, feat="PSHG", defmode=1, dev=1),
+    "sparse5":  dict(N=5, L=2, cap=0, head=1, manual=0, pay=1, ctx=1, feat="PSHG", defmode=1, dev=1),
     "one1v":    dict(N=1, L=2, cap=0, head=1, manual=1, pay=3, ctx=0, feat="PSHGV", defmode=2),
     "big9":     dict(N=9, L=7, cap=3, head=1, manual=0, pay=3, ctx=1, feat="PSHG"),
     "man3":     dict(N=3, L=2, cap=2, head=1, manual=1, pay=0, ctx=0, feat="PSHG"),
     "nolog3":   dict(N=3, L=2, cap=2, head=1, manual=1, pay=0, ctx=0, feat="PSH", cfgorder=1, script_seed="man3"),      # twin of man3 without the log interface
-    "plain3":   dict(N=3, L=1, cap=0, head=1, manual=0, pay=0, ctx=0, feat=""),
+    "plain3":   dict(N=3, L=1, cap=0, head=1, manual=0, pay=0, ctx=3, feat=""),
     "tour2":    dict(N=2, L=1, cap=1, head=1, manual=0, pay=0, ctx=0, feat="H"),      # constants of spec/MC_tour.cfg: replays tours of the model graph
     "all4":     dict(N=4, L=2, cap=4, head=1, manual=1, pay=4, ctx=2, feat="AG", std="c++17"),
 }
@@ -105,11 +105,13 @@ def gen_guard_enum(p, rng, limit):
         src = idx % (3 if plans else 2)
         pay = p.get("pay") and idx % 4 >= 2         # payload-carrying requests and redirects in half of the cases
         if pay:
-            tok = 1 + idx % 3
+            tok = 1 + (idx + (1 if idx % 8 >= 6 else 0)) % 3        # (every fourth of them forwards the token of the request it redirects)
             ds = [re.sub(r"T(\d+)", lambda m: "W%s.%d" % (m.group(1), tok), x) for x in ds]
         if src == 0:
             ls.append(("@0 iwith %d 0 %d | %s" % (d, 1 + (idx + 1) % 3, " ; ".join(ds))) if pay else ("@0 ito %d | %s" % (d, " ; ".join(ds))))
         elif src == 1:
+            if pay and idx % 8 >= 6:    # a request with the same token is already waiting: the callback's changeWith() may forward that request's own payload object
+                ls.append("@0 with %d 0 %d" % ((d + 1) % len(states), 1 + (idx + 1) % 3))
             ls.append("@0 update | %s" % " ; ".join([_key(5, a) + (":W%d.%d" % (d, 1 + (idx + 1) % 3) if pay else ":T%d" % d)] + ds))
         else:
             ls.append("@0 pc %d %d" % (a, d))
@@ -330,7 +332,7 @@ def gen_lifecycle(p, rng, limit):
     return "\n".join(out) + "\n"
 
 
-def scenarios_for(pname, p, tier, seed):
+def scenarios_for(pname, p, tier, seed, exe=None):
     """-> list of (scenario name, script text)"""
     rng = random.Random("%s-%d" % (p.get("script_seed", pname), seed))      # twins share their scripts
     q = tier == "quick"
@@ -347,6 +349,13 @@ def scenarios_for(pname, p, tier, seed):
     sc.append(("capacity", gen_capacity(p, rng, 3 if q else 20)))
     sc.append(("serial", gen_serial_pairs(p, rng, 30 if q else 120)))
     sc.append(("lifecycle", gen_lifecycle(p, rng, 12 if q else 60)))
+    if exe is not None:
+        # specification -> code: behaviours of FFSM2.tla drawn by TLC at this profile's constants, replayed on the real machine
+        import simgen
+        text, info = simgen.sim_script(pname, simgen.profile_cfg(exe), 15 if q else 150, 200 if q else 400, seed)
+        if info.get("error"):
+            raise RuntimeError("simulation export failed for %s: %s" % (pname, info["error"][-800:]))
+        sc.append(("specsim", text))
     return [(n, t) for n, t in sc if t.strip()]
 
 
@@ -379,10 +388,11 @@ def run_pool(tier, seed, names=None, force=False):
         pr = {"flags": vlib.profile_flags(profs[n]), "built": exe is not None, "build_log": blog[-2000:] if exe is None else "", "runs": {}}
         res["profiles"][n] = pr
         if exe is not None:
-            jobs.append((n, exe, scenarios_for(n, profs[n], tier, seed)))
+            jobs.append((n, exe, None))
 
     def one(job):
         n, exe, scs = job
+        scs = scenarios_for(n, profs[n], tier, seed, exe)
         runs = {}
         cat = os.path.join(cdir, "%s.all.tlc.ndjson" % n)
         mcat = os.path.join(cdir, "%s.all.merged.ndjson" % n)
@@ -441,6 +451,8 @@ def run_pool(tier, seed, names=None, force=False):
         json.dump(res, f, indent=1)
     prune_pool_cache(5)
     vlib.prune_build_cache()
+    import simgen
+    simgen.prune()
     return res
 
 
